@@ -241,6 +241,7 @@ class Agg:
             return
         self.runs += 1
         self.wall_ms += r.get("wall_ms", 0)
+        self.sim_ms = getattr(self, "sim_ms", 0) + r.get("sim_ms", 0)
         if r.get("nontrivial"):
             self.sigs.add(r["sig"])
         self.schedsigs.add(r.get("schedsig"))
@@ -281,7 +282,7 @@ def run_chunk(binary, args, env, timeout):
     return p.returncode, lines, p.stderr
 
 
-def run_engine_a(sc, binary, mode, tier, seed0, count, chunk, nproc, race=False, timeout=900, stop_on_violation=True, gomaxprocs=4):
+def run_engine_a(sc, binary, mode, tier, seed0, count, chunk, nproc, race=False, timeout=900, stop_on_violation=True, gomaxprocs=4, refbin=None):
     """Runs `count` seeds starting at seed0 in chunks over nproc processes; returns an Agg."""
     agg = Agg()
     refdir = os.path.join(sc.dir, "refcache")
@@ -301,6 +302,8 @@ def run_engine_a(sc, binary, mode, tier, seed0, count, chunk, nproc, race=False,
             args = ["batch", "-mode", mode, "-tier", tier, "-corpus", sc.corpus_path, "-census", sc.census_path,
                     "-refdir", refdir, "-seeds", "%d:%d" % (start, n), "-samples", "1" if start == seed0 else "0"]
             env = {"GOMAXPROCS": str(gomaxprocs)}
+            if refbin:
+                env["SIM_REFBIN"] = refbin
             if race:
                 prefix = os.path.join(racedir, "r%d" % start)
                 args += ["-racelog", prefix]
